@@ -49,7 +49,9 @@ def fill(ctx, text, caps):
     return text
 
 
-def make(pid, macro, site, step, depth, idx, seed):
+def make(pid, macro, site, step, depth, idx, seed, with_pre=True):
+    """with_pre=False: no plain callback in front of the site, so the site sits at position 1 of branch 0 - the
+    (branch, position) pair mirrored by branch 1's initial block at (1, 0)"""
     op, t, method, blocks, out = site
     ctx = Ctx(rng(seed, pid), itlen=2)
     is_async, is_try, is_spawn = KINDS[macro]
@@ -58,12 +60,12 @@ def make(pid, macro, site, step, depth, idx, seed):
     inner_input = ctx.value(t)
     # ---- branch 0 ------------------------------------------------------------------------------------------
     # the plain callback in front of the site keeps the value and logs L_A
-    if t[0] in ("opt", "res"):
+    if with_pre:
         pre_mac = "|> move |v: u8| { ev(%d); v }" % L_A
         pre_ref = lambda b: "%s.map(move |v: u8| { ev(%d); v })" % (b, L_A)
     else:
-        pre_mac = "|> move |v: u8| { ev(%d); v }" % L_A
-        pre_ref = lambda b: "%s.map(move |v: u8| { ev(%d); v })" % (b, L_A)
+        pre_mac = ""
+        pre_ref = lambda b: b
     if op == "->":
         site_mac = "-> %s" % operands[0]
         site_ref = lambda b: "(%s)(%s)" % (operands[0], b)
@@ -175,7 +177,10 @@ def make(pid, macro, site, step, depth, idx, seed):
     else:
         L.append("vassert!(%s && m.1 == r1, %s);" % (cmp0("m.0", "r0"), msg("the value of the block is used as the operand")))
     if op == "??":
-        L.append("vassert!(im == argx(9), %s);" % msg("the inspect callback built by the block saw the same value"))
+        if is_try and step == 1:
+            L.append("vassert!(!reached || im == argx(9), %s);" % msg("the inspect callback built by the block saw the same value (when its step was reached)"))
+        else:
+            L.append("vassert!(im == argx(9), %s);" % msg("the inspect callback built by the block saw the same value"))
     L.append("vcover!(true, \"end reached\");")
     desc = dict(macro=macro, operator=op, input_type=str(t), step=step, wrapper_depth=depth, operands=len(blocks))
     w = 1 + (8 if op == "?&!>" else 0) + (3 if t[0] == "it" else 0)
@@ -254,13 +259,13 @@ def programs(tier, seed):
             for depth in (0, 1, 2):
                 for mi, macro in enumerate(("join", "try_join", "join_spawn")):
                     i += 1
-                    if macro == "try_join" and not (site[4][0] in ("opt", "res") and depth == 0):
-                        continue
+                    if macro == "try_join" and not (site[4][0] in ("opt", "res") and site[1][0] in ("opt", "res") and depth == 0):
+                        continue        # every branch value at a step boundary of a try macro must be an Option / Result
                     if site[0] == "?&!>" and macro != "join":
                         continue        # two Vecs of symbolic length under the thread model do not finish within the caps
                     if tier == "quick" and (si + step + depth + mi + seed) % 3 != 0:
                         continue
-                    ps.append(make("p%04d" % i, macro, site, step, depth, i, seed))
+                    ps.append(make("p%04d" % i, macro, site, step, depth, i, seed, with_pre=(i % 2 == 0) or depth > 0))
     for ai, asite in enumerate(ASITES):
         for step in (0, 1):
             for mi, macro in enumerate(("join_async", "try_join_async")):
